@@ -217,6 +217,32 @@ def extract_witness(trace, entry):
     return w
 
 
+def scan_assumes(h):
+    """Mechanical scan of the harness TU and the /verif headers it includes for assumptions."""
+    seen, todo = set(), [os.path.join(VERIF, 'harness', h.src)]
+    out = {'ghost_axioms': [], 'harness_assumes': [], 'raw_assumes': []}
+    while todo:
+        f = todo.pop()
+        if f in seen or not os.path.exists(f):
+            continue
+        seen.add(f)
+        rel = os.path.relpath(f, VERIF)
+        for ln, line in enumerate(open(f, errors='replace'), 1):
+            mo = re.match(r'\s*#\s*include\s+"([^"]+)"', line)
+            if mo:
+                for d in (os.path.dirname(f), os.path.join(VERIF, 'contracts'), os.path.join(VERIF, 'harness')):
+                    todo.append(os.path.join(d, mo.group(1)))
+            if rel == 'contracts/verif_common.h':
+                continue
+            if 'GHOST_AXIOM(' in line and '#define GHOST_AXIOM' not in line:
+                out['ghost_axioms'].append('%s:%d: %s' % (rel, ln, line.strip()[:160]))
+            if 'HARNESS_ASSUME(' in line:
+                out['harness_assumes'].append('%s:%d: %s' % (rel, ln, line.strip()[:160]))
+            if '__CPROVER_assume' in line:
+                out['raw_assumes'].append('%s:%d: %s' % (rel, ln, line.strip()[:160]))
+    return out
+
+
 def verify(h, tier, keep=None):
     """Run one harness.  Returns a result dict with status PROVED / FAILED / UNDECIDED."""
     t_start = time.time()
@@ -228,6 +254,7 @@ def verify(h, tier, keep=None):
            'trusted': h.trusted, 'backend': h.solver or 'minisat (cbmc default SAT)', 'samples': [],
            'cmd': ''}
     try:
+        res['assumes_scan'] = scan_assumes(h)
         sp = splice_sources(h, work)
         defs = ['-DISAL_VERIF'] + REPO_DEFS + ['-D' + d for d in h.defines]
         if tier == 'thorough':
